@@ -67,6 +67,7 @@ Inductive Q :=
 | QLang (name : list N)
 | QFileNameSet (names : list (list N))
 | QTypeFileName (q : Q)
+| QTypeOther (q : Q)                      (* type:filematch / type:repo: no restriction inside a shard *)
 | QBoost (q : Q).
 
 (* ------------------------------------------------------------------ text primitives *)
@@ -159,7 +160,8 @@ Fixpoint eval (c : corpus) (q : Q) (d : doc) : bool :=
   | QNot q' => negb (eval c q' d)
   | QConst b => b
   | QBranch p exact =>
-      if runes_eqb p HEAD then N.testbit (d_mask d) 0
+      if (match p with [] => negb exact | _ => false end) then true     (* branch:"" = no restriction (evalConstants) *)
+      else if runes_eqb p HEAD then N.testbit (d_mask d) 0
       else negb (N.land (branch_match_mask (repo_of c d) p exact) (d_mask d) =? 0)%N
   | QRepoTbl want => nth (d_repo d) want false
   | QRepoSet names => mem_runes (r_name (repo_of c d)) names
@@ -171,6 +173,7 @@ Fixpoint eval (c : corpus) (q : Q) (d : doc) : bool :=
   | QLang name => match lang_code c name with Some code => (d_lang d =? code)%N | None => false end
   | QFileNameSet names => mem_runes (d_name d) names
   | QTypeFileName q' => eval c q' d
+  | QTypeOther q' => eval c q' d
   | QBoost q' => eval c q' d
   end.
 
@@ -235,14 +238,480 @@ Fixpoint min2 (fs : list N) (i : nat) (st : nat * nat * N * N) : nat * nat :=
       else min2 r (S i) st
   end.
 (** findSelectiveNgrams on rune indexes: (index of first, index of last) *)
+Definition dflt_off : nat * tri := (0, (0, 0, 0)%N).
 Definition select_idx (offs : list (nat * tri)) (freqs : list N) : nat * nat :=
   let '(p0, p1) := min2 freqs 0 (0, 0, INFREQ, INFREQ) in
-  let x0 := fst (nth p0 offs (0, (0, 0, 0)%N)) in
-  let x1 := fst (nth p1 offs (0, (0, 0, 0)%N)) in
-  let '(f, l) := if l_gt x0 x1 then (x1, x0) else (x0, x1) in
+  let x0 := fst (nth p0 offs dflt_off) in
+  let x1 := fst (nth p1 offs dflt_off) in
+  let f := Nat.min x0 x1 in
+  let l := Nat.max x0 x1 in
   if l - f <? 3 then
     let f' := l - 3 in                                   (* max(last.index-ngramSize, 0) *)
     let l' := Nat.min (f' + 3) (length offs - 1) in
     (f', l')
-  else (f, l)
-where "'l_gt' a b" := (b <? a) (only parsing).
+  else (f, l).
+Definition nth_tri (p : list N) (i : nat) : tri := snd (nth i (pat_tris p) dflt_off).
+
+(* ------------------------------------------------------------------ match trees *)
+Record sleaf := { sl_pat : list N; sl_cs : bool; sl_fn : bool; sl_dead : bool;
+                  sl_a : nat;            (* ngramDocIterator.leftPad  = index of the first selected trigram *)
+                  sl_rpad : nat;         (* ngramDocIterator.rightPad = |pattern| - leftPad *)
+                  sl_hits : list nat;    (* what the hit iterator still holds *)
+                  sl_cur : list nat }.   (* substrMatchTree.current: candidate rune offsets in the prepared document *)
+Inductive scan_kind :=
+| SKall                                   (* bruteForceMatchTree *)
+| SKre (rid : N) (fn : bool)              (* regexpMatchTree *)
+| SKword (w : list N) (fn : bool)         (* wordMatchTree *)
+| SKlit (p : list N) (cs fn : bool).      (* regexpMatchTree over an OpLiteral of < 3 runes (newSubstringMatchTree) *)
+Inductive mt :=
+| MTand (cs : list mt)
+| MTor (cs : list mt)
+| MTandLine (cs : list mt)
+| MTnot (c : mt)
+| MTwrap (c : mt)                          (* noVisitMatchTree / fileNameMatchTree / boostMatchTree *)
+| MTsubstr (s : sleaf)
+| MTscan (k : scan_kind) (cur : option nat)
+| MTdocp (p : nat -> bool) (cur : option nat)   (* docMatchTree / branchQueryMatchTree: predicate on the document id *)
+| MTnone.
+
+Inductive st3 := Higher | Found | NoneM.       (* matchesRequiresHigherCost / matchesFound / matchesNone *)
+Definition pred3 (b : bool) : st3 := if b then Found else NoneM.
+
+Section Index.
+Variable c : corpus.
+Variable freq : bool -> bool -> tri -> N.   (* fileName, caseSensitive, trigram |-> summed size of the posting lists consulted *)
+
+Definition ndocs : nat := length (c_docs c).
+Definition ix_ends (fn : bool) : list nat := ends_of (texts c fn).
+Definition ix_tris (fn : bool) : list (nat * tri) := all_tris (texts c fn).
+Definition text_of (fn : bool) (k : nat) : list N := nth k (texts c fn) [].
+
+(** newSubstringMatchTree + iterateNgrams *)
+Definition new_substr (p : list N) (cs fn : bool) : mt :=
+  if length p <? 3 then MTscan (SKlit p cs fn) None else
+  let offs := sort_offs (pat_tris p) in
+  let fs := map (fun e => freq fn cs (snd e)) offs in
+  if existsb (N.eqb 0) fs then
+    MTsubstr {| sl_pat := p; sl_cs := cs; sl_fn := fn; sl_dead := true; sl_a := 0; sl_rpad := 0; sl_hits := []; sl_cur := [] |}
+  else
+    let '(a, b) := select_idx offs fs in
+    let tris := ix_tris fn in
+    let hits := if a =? b then post tris cs (nth_tri p b)
+                else dist_hits (b - a) (post tris cs (nth_tri p a)) (post tris cs (nth_tri p b)) in
+    MTsubstr {| sl_pat := p; sl_cs := cs; sl_fn := fn; sl_dead := false; sl_a := a; sl_rpad := length p - a;
+                sl_hits := hits; sl_cur := [] |}.
+
+Definition is_brute (t : mt) : bool := match t with MTscan SKall _ => true | _ => false end.
+Definition brute : mt := MTscan SKall None.
+
+(** regexpToMatchTreeRecursive: (tree, isEqual, singleLine) *)
+Fixpoint distill (cs fn : bool) (r : rx) : mt * bool * bool :=
+  match r with
+  | RLit s fold =>
+      if 3 <=? byte_len s then (new_substr s (negb fold && cs) fn, true, negb (memN 10 s))
+      else (brute, false, false)
+  | RCapture r' => distill cs fn r'
+  | RPlus r' => distill cs fn r'
+  | RRepeat mn r' =>
+      if mn =? 1 then distill cs fn r'
+      else if 1 <? mn then let '(m, _, sl) := distill cs fn r' in (m, false, sl)
+      else (brute, false, false)
+  | RConcat rs =>
+      let subs := map (distill cs fn) rs in
+      let qs := map (fun x => fst (fst x)) subs in
+      let isEq := forallb (fun x => snd (fst x)) subs in
+      let sl := forallb (fun x => snd x) subs in
+      let isEq := if 1 <? length qs then false else isEq in
+      let newQs := filter (fun q => negb (is_brute q)) qs in
+      match newQs with
+      | [q] => (q, isEq, sl)
+      | [] => (brute, isEq, sl)
+      | _ => if sl then (MTandLine newQs, isEq, sl) else (MTand newQs, isEq, sl)
+      end
+  | RAlt rs =>
+      let subs := map (distill cs fn) rs in
+      let qs := map (fun x => fst (fst x)) subs in
+      let isEq := forallb (fun x => snd (fst x)) subs in
+      match find is_brute qs with
+      | Some q => (q, isEq, false)
+      | None => match qs with [] => (MTnone, isEq, false) | _ => (MTor qs, isEq, false) end
+      end
+  | RStarAnyNotNL => (brute, false, true)
+  | RWordB => (brute, false, false)
+  | ROther => (brute, false, false)
+  end.
+
+(** regexpToWordMatchTree *)
+Definition word_of (r : rx) (topfold cs : bool) : option (list N) :=
+  if cs && negb topfold then
+    match r with
+    | RConcat [RWordB; RLit w _; RWordB] => Some w
+    | _ => None
+    end
+  else None.
+
+Definition repo_idx (k : nat) : nat := d_repo (doc_at c k).
+Definition repo_at (i : nat) : repo := nth i (c_repos c) dflt_repo.
+
+(** newMatchTree (after ExpandFileContent: exactly one of fn / ct is set on text atoms) *)
+Fixpoint build (q : Q) : mt :=
+  match q with
+  | QSubstr p cs fn _ => new_substr p cs fn
+  | QRegexp rid r topfold cs fn _ =>
+      let '(sub, isEq, _) := distill cs fn r in
+      if isEq then sub else
+      let tr := match word_of r topfold cs with
+                | Some w => MTscan (SKword w fn) None
+                | None => MTscan (SKre rid fn) None
+                end in
+      MTand [tr; MTwrap sub]
+  | QAnd l => MTand (map build l)
+  | QOr l => MTor (map build l)
+  | QNot q' => MTnot (build q')
+  | QConst b => if b then brute else MTnone
+  | QBranch p exact =>
+      let masks := map (fun r => if runes_eqb p HEAD then 1%N else branch_match_mask r p exact) (c_repos c) in
+      MTdocp (fun k => negb (N.land (nth (repo_idx k) masks 0%N) (d_mask (doc_at c k)) =? 0)%N) None
+  | QRepoTbl want => MTdocp (fun k => nth (repo_idx k) want false) None
+  | QRepoSet names =>
+      let want := map (fun r => mem_runes (r_name r) names) (c_repos c) in
+      MTdocp (fun k => nth (repo_idx k) want false) None
+  | QRepoIDs ids =>
+      let want := map (fun r => memN (r_id r) ids) (c_repos c) in
+      MTdocp (fun k => nth (repo_idx k) want false) None
+  | QRawConfig m => MTdocp (fun k => (N.land m (r_rawmask (repo_at (repo_idx k))) =? m)%N) None
+  | QBranchesRepos l =>
+      let want := map (fun r => fold_left (fun mask br => if memN (r_id r) (snd br) then N.lor mask (branch_bit r (fst br)) else mask) l 0%N)
+                      (c_repos c) in
+      MTdocp (fun k => negb (N.land (d_mask (doc_at c k)) (nth (repo_idx k) want 0%N) =? 0)%N) None
+  | QLang name =>
+      match lang_code c name with
+      | None => MTnone
+      | Some code => MTdocp (fun k => (d_lang (doc_at c k) =? code)%N) None
+      end
+  | QFileNameSet names => MTdocp (fun k => mem_runes (d_name (doc_at c k)) names) None
+  | QTypeFileName q' => MTwrap (build q')
+  | QTypeOther q' => build q'
+  | QBoost q' => MTwrap (build q')
+  end.
+
+(** pruneMatchTree: None = the tree cannot match any document *)
+Fixpoint prune (t : mt) : option mt :=
+  match t with
+  | MTsubstr s => if sl_dead s then None else Some t
+  | MTand cs =>
+      option_map MTand
+      ((fix go (l : list mt) : option (list mt) :=
+         match l with
+         | [] => Some []
+         | x :: r => match prune x with
+                     | None => None
+                     | Some x' => match go r with None => None | Some r' => Some (x' :: r') end
+                     end
+         end) cs)
+  | MTandLine cs =>
+      option_map MTandLine
+      ((fix go (l : list mt) : option (list mt) :=
+         match l with
+         | [] => Some []
+         | x :: r => match prune x with
+                     | None => None
+                     | Some x' => match go r with None => None | Some r' => Some (x' :: r') end
+                     end
+         end) cs)
+  | MTor cs =>
+      match (fix go (l : list mt) : list mt :=
+               match l with
+               | [] => []
+               | x :: r => match prune x with None => go r | Some x' => x' :: go r end
+               end) cs with
+      | [] => None
+      | [x] => Some x
+      | l => Some (MTor l)
+      end
+  | MTwrap c' => option_map MTwrap (prune c')
+  | MTnot c' => match prune c' with None => Some brute | Some c'' => Some (MTnot c'') end
+  | _ => Some t
+  end.
+
+(* ------------------------------------------------------------------ docIterator: nextDoc / prepare *)
+Definition cursor_next (cur : option nat) : nat := match cur with None => 0 | Some d => S d end.
+(** first j in [i, n) with p j, else n (= "MaxUint32": every value >= ndocs ends the search loop) *)
+Definition first_from (p : nat -> bool) (i n : nat) : nat :=
+  match find p (seq i (n - i)) with Some j => j | None => n end.
+(** nextFileIndex: smallest j with ends[j] > off (linear; ends is sorted) *)
+Fixpoint find_end (off : nat) (es : list nat) (j : nat) : nat :=
+  match es with [] => j | e :: r => if e <=? off then find_end off r (S j) else j end.
+
+Fixpoint nextDoc (t : mt) : nat :=
+  match t with
+  | MTand cs => fold_right (fun x m => Nat.max (nextDoc x) m) 0 cs
+  | MTandLine cs => fold_right (fun x m => Nat.max (nextDoc x) m) 0 cs
+  | MTor cs => fold_right (fun x m => Nat.min (nextDoc x) m) ndocs cs
+  | MTnot _ => 0
+  | MTwrap c' => nextDoc c'
+  | MTsubstr s =>
+      if sl_dead s then ndocs else
+      match sl_hits s with
+      | [] => ndocs
+      | p :: _ => find_end p (ix_ends (sl_fn s)) 0
+      end
+  | MTscan _ cur => cursor_next cur
+  | MTdocp p cur => first_from p (cursor_next cur) ndocs
+  | MTnone => ndocs
+  end.
+
+Fixpoint drop_while (f : nat -> bool) (l : list nat) : list nat :=
+  match l with [] => [] | x :: r => if f x then drop_while f r else l end.
+Fixpoint take_while (f : nat -> bool) (l : list nat) : list nat :=
+  match l with [] => [] | x :: r => if f x then x :: take_while f r else [] end.
+
+(** ngramDocIterator.prepare followed by candidates() (substrMatchTree.prepare) *)
+Definition sleaf_prepare (k : nat) (s : sleaf) : sleaf :=
+  if sl_dead s then s else
+  let ends := ix_ends (sl_fn s) in
+  let start := start_of ends k in
+  let fend := nth k ends 0 in
+  let h1 := if 0 <? start then drop_while (fun p => p <=? start + sl_a s - 1) (sl_hits s) else sl_hits s in
+  let mine := take_while (fun p => p <? fend) h1 in
+  let rest := drop_while (fun p => p <? fend) h1 in
+  let ok := filter (fun p => (sl_a s + start <=? p) && (p + sl_rpad s <=? fend)) mine in
+  {| sl_pat := sl_pat s; sl_cs := sl_cs s; sl_fn := sl_fn s; sl_dead := false; sl_a := sl_a s; sl_rpad := sl_rpad s;
+     sl_hits := rest; sl_cur := map (fun p => p - start - sl_a s) ok |}.
+
+Fixpoint prepare (k : nat) (t : mt) : mt :=
+  match t with
+  | MTand cs => MTand (map (prepare k) cs)
+  | MTandLine cs => MTandLine (map (prepare k) cs)
+  | MTor cs => MTor (map (prepare k) cs)
+  | MTnot c' => MTnot (prepare k c')
+  | MTwrap c' => MTwrap (prepare k c')
+  | MTsubstr s => MTsubstr (sleaf_prepare k s)
+  | MTscan sk _ => MTscan sk (Some k)
+  | MTdocp p _ => MTdocp p (Some k)
+  | MTnone => MTnone
+  end.
+
+(* ------------------------------------------------------------------ matches (cost-staged, three-valued) *)
+Definition verified (k : nat) (s : sleaf) : list nat :=         (* substrMatchTree.matches: prune current by matchContent *)
+  filter (occurs_at (sl_cs s) (sl_pat s) (text_of (sl_fn s) k)) (sl_cur s).
+Definition scan_holds (sk : scan_kind) (k : nat) : bool :=
+  match sk with
+  | SKall => true
+  | SKre rid fn => re_match rid (text_of fn k)
+  | SKword w fn => word_found w (text_of fn k)
+  | SKlit p cs fn => contains cs p (text_of fn k)
+  end.
+Definition and3 (l : list st3) : st3 :=
+  if existsb (fun s => match s with NoneM => true | _ => false end) l then NoneM
+  else if existsb (fun s => match s with Higher => true | _ => false end) l then Higher else Found.
+Definition or3 (l : list st3) : st3 :=
+  if existsb (fun s => match s with Higher => true | _ => false end) l then Higher
+  else if existsb (fun s => match s with Found => true | _ => false end) l then Found else NoneM.
+Definition not3 (s : st3) : st3 := match s with Higher => Higher | Found => NoneM | NoneM => Found end.
+
+(** the same-line test of andLineMatchTree.matches, at the level of what it computes: all children are content
+    substring atoms and some line holds a verified candidate of each; any other child shape => Found *)
+Definition content_sleaf (t : mt) : option sleaf :=
+  match t with MTsubstr s => if sl_fn s then None else Some s | _ => None end.
+Definition same_line (k : nat) (cs : list mt) : bool :=
+  if forallb (fun x => match content_sleaf x with Some _ => true | None => false end) cs then
+    let t := text_of false k in
+    let vs := map (fun x => match content_sleaf x with Some s => verified k s | None => [] end) cs in
+    match vs with
+    | [] => true
+    | v0 :: _ => existsb (fun o0 => forallb (fun v => existsb (fun o => line_of t o =? line_of t o0) v) vs) v0
+    end
+  else true.
+
+Fixpoint run3 (cost : nat) (k : nat) (t : mt) : st3 :=
+  match t with
+  | MTand cs => and3 (map (run3 cost k) cs)
+  | MTandLine cs =>
+      match and3 (map (run3 cost k) cs) with
+      | Found => pred3 (same_line k cs)
+      | s => s
+      end
+  | MTor cs => or3 (map (run3 cost k) cs)
+  | MTnot c' => not3 (run3 cost k c')
+  | MTwrap c' => run3 cost k c'
+  | MTsubstr s =>
+      match sl_cur s with
+      | [] => NoneM
+      | _ => if cost <? (if sl_fn s then 1 else 2) then Higher
+             else pred3 (match verified k s with [] => false | _ => true end)
+      end
+  | MTscan SKall _ => Found
+  | MTscan sk _ => if cost <? 3 then Higher else pred3 (scan_holds sk k)
+  | MTdocp p _ => pred3 (p k)
+  | MTnone => NoneM
+  end.
+
+(** the cost loop of Search (eval.go:276-289): reject as soon as some cost level says None; a tree still undecided
+    at costMax is a log.Panicf in Go (unreachable: lemma run3_max_decides), modelled as reject *)
+Definition accept (k : nat) (t : mt) : bool :=
+  forallb (fun cost => match run3 cost k t with NoneM => false | _ => true end) [0; 1; 2; 3] &&
+  match run3 3 k t with Higher => false | _ => true end.
+
+(* ------------------------------------------------------------------ the document loop of indexData.Search (no limits) *)
+Definition live_at (k : nat) : bool := live c (doc_at c k).
+Fixpoint loop (fuel : nat) (t : mt) (last : option nat) : list nat :=
+  match fuel with
+  | 0 => []
+  | S f =>
+      let nd1 := Nat.max (nextDoc t) (cursor_next last) in
+      let nd := first_from live_at nd1 ndocs in
+      if ndocs <=? nd then [] else
+      let t' := prepare nd t in
+      if accept nd t' then nd :: loop f t' (Some nd) else loop f t' (Some nd)
+  end.
+
+(* ------------------------------------------------------------------ indexData.simplify + query.Simplify (constants) *)
+Definition multi_repo (q : Q) (pred : nat -> repo -> bool) : Q :=      (* simplifyMultiRepo *)
+  let idx := combine (seq 0 (length (c_repos c))) (c_repos c) in
+  let alive := length (filter (fun ir => negb (r_tomb (snd ir))) idx) in
+  let count := length (filter (fun ir => negb (r_tomb (snd ir)) && pred (fst ir) (snd ir)) idx) in
+  if count =? alive then QConst true else if 0 <? count then q else QConst false.
+Definition simp_atom (q : Q) : Q :=
+  match q with
+  | QRepoTbl want => multi_repo q (fun i _ => nth i want false)
+  | QRepoSet names => multi_repo q (fun _ r => mem_runes (r_name r) names)
+  | QRepoIDs ids => multi_repo q (fun _ r => memN (r_id r) ids)
+  | QRawConfig m => multi_repo q (fun _ r => (N.land m (r_rawmask r) =? m)%N)
+  | QBranchesRepos l =>
+      if existsb (fun r => existsb (fun br => memN (r_id r) (snd br)) l) (c_repos c) then q else QConst false
+  | QLang name => match lang_code c name with None => QConst false | Some _ => q end
+  | _ => q
+  end.
+Definition is_const (q : Q) : option bool := match q with QConst b => Some b | _ => None end.
+(** query.Map(in, atom folding) followed by evalConstants; the flattening of Simplify only changes the shape *)
+Fixpoint simp (q : Q) : Q :=
+  match q with
+  | QAnd l =>
+      let l' := map simp l in
+      if existsb (fun x => match is_const x with Some false => true | _ => false end) l' then QConst false
+      else match filter (fun x => match is_const x with Some true => false | _ => true end) l' with
+           | [] => QConst true
+           | r => QAnd r
+           end
+  | QOr l =>
+      let l' := map simp l in
+      if existsb (fun x => match is_const x with Some true => true | _ => false end) l' then QConst true
+      else match filter (fun x => match is_const x with Some false => false | _ => true end) l' with
+           | [] => QConst false
+           | r => QOr r
+           end
+  | QNot q' => match simp q' with QConst b => QConst (negb b) | s => QNot s end
+  | QTypeFileName q' => match simp q' with QConst b => QConst b | s => QTypeFileName s end
+  | QTypeOther q' => match simp q' with QConst b => QConst b | s => QTypeOther s end
+  | QBoost q' => match simp q' with QConst b => QConst b | s => QBoost s end
+  | QSubstr [] _ _ _ => QConst true
+  | QBranch [] false => QConst true
+  | QRepoIDs [] => QConst false
+  | QRepoSet [] => QConst false
+  | QFileNameSet [] => QConst false
+  | _ => match simp_atom q with
+         | QBranchesRepos l => if forallb (fun br => match snd br with [] => true | _ => false end) l then QConst false else QBranchesRepos l
+         | s => s
+         end
+  end.
+
+(** query.Map(q, ExpandFileContent) *)
+Fixpoint expand (q : Q) : Q :=
+  match q with
+  | QSubstr p cs fn ct => if Bool.eqb fn ct then QOr [QSubstr p cs true false; QSubstr p cs false true] else q
+  | QRegexp rid r tf cs fn ct =>
+      if Bool.eqb fn ct then QOr [QRegexp rid r tf cs true false; QRegexp rid r tf cs false true] else q
+  | QAnd l => QAnd (map expand l)
+  | QOr l => QOr (map expand l)
+  | QNot q' => QNot (expand q')
+  | QTypeFileName q' => QTypeFileName (expand q')
+  | QTypeOther q' => QTypeOther (expand q')
+  | QBoost q' => QBoost (expand q')
+  | _ => q
+  end.
+
+(** indexData.Search without limits: ids of the returned files, in order *)
+Definition search (q : Q) : list nat :=
+  match simp q with
+  | QConst false => []
+  | q1 =>
+      match prune (build (expand q1)) with
+      | None => []
+      | Some t => loop (S ndocs) t None
+      end
+  end.
+
+End Index.
+End Engine.
+
+(* ------------------------------------------------------------------ correspondence runner *)
+From Coq Require Strings.String Strings.Ascii.
+(** texts are shipped as Coq string literals (UTF-8 bytes) and decoded here (runner only) *)
+Fixpoint utf8_dec (l : list N) : list N :=
+  match l with
+  | [] => []
+  | b :: r =>
+      if (b <? 128)%N then b :: utf8_dec r
+      else if (b <? 224)%N then
+        match r with c1 :: r' => ((b - 192) * 64 + (c1 - 128))%N :: utf8_dec r' | _ => [65533%N] end
+      else if (b <? 240)%N then
+        match r with c1 :: c2 :: r' => ((b - 224) * 4096 + (c1 - 128) * 64 + (c2 - 128))%N :: utf8_dec r' | _ => [65533%N] end
+      else
+        match r with
+        | c1 :: c2 :: c3 :: r' => ((b - 240) * 262144 + (c1 - 128) * 4096 + (c2 - 128) * 64 + (c3 - 128))%N :: utf8_dec r'
+        | _ => [65533%N]
+        end
+  end.
+Definition R (s : String.string) : list N := utf8_dec (map Ascii.N_of_ascii (String.list_ascii_of_string s)).
+
+(** The external parts are instantiated by tables recorded by the harness from the real code:
+    folds  : (rune, unicode.ToLower rune, SimpleFold orbit) for every rune of the case that has case variants
+    retbl  : (pattern id, verdict of the regexp engine on (name, content) of every document) for every regexp atom *)
+Definition tbl_lower (folds : list (N * N * list N)) (r : N) : N :=
+  match find (fun e => N.eqb (fst (fst e)) r) folds with Some e => snd (fst e) | None => r end.
+Definition tbl_orbit (folds : list (N * N * list N)) (r : N) : list N :=
+  match find (fun e => N.eqb (fst (fst e)) r) folds with Some e => snd e | None => [r] end.
+Definition tbl_re (docs : list doc) (tb : list (N * list (bool * bool))) (rid : N) (t : list N) : bool :=
+  match find (fun e => N.eqb (fst e) rid) tb with
+  | Some e =>
+      match find (fun x => runes_eqb (d_name (fst x)) t || runes_eqb (d_content (fst x)) t) (combine docs (snd e)) with
+      | Some x => if runes_eqb (d_name (fst x)) t then fst (snd x) else snd (snd x)
+      | None => false
+      end
+  | None => false
+  end.
+(** frequencies: the number of postings consulted (the real code uses the byte size of the compressed lists; the
+    selection it drives is irrelevant for the result -- theorem substring_candidates_exact -- but must be 0 exactly
+    for absent trigrams) *)
+Definition count_freq (orbit : N -> list N) (c : corpus) (fn cs : bool) (g : tri) : N :=
+  N.of_nat (length (post orbit (all_tris (texts c fn)) cs g)).
+
+Definition repo_row := (list N * N * bool * list (list N) * list (list N) * N)%type.
+Definition doc_row := (list N * list N * N * nat * N)%type.
+Definition mk_repo (r : repo_row) : repo :=
+  let '(nm, id, tomb, ft, br, raw) := r in
+  {| r_name := nm; r_id := id; r_tomb := tomb; r_ftombs := ft; r_branches := br; r_rawmask := raw |}.
+Definition mk_doc (d : doc_row) : doc :=
+  let '(nm, ct, mask, rp, lang) := d in
+  {| d_name := nm; d_content := ct; d_mask := mask; d_repo := rp; d_lang := lang |}.
+
+Definition c01case := (list repo_row * list doc_row * list (list N * N) * list (N * N * list N) *
+                       list (N * list (bool * bool)) * Q * list (nat * list N))%type.
+Definition c01_model (cs : c01case) : list nat * list nat :=
+  let '(repos, docs, langs, folds, retbl, q, _) := cs in
+  let c := {| c_repos := map mk_repo repos; c_docs := map mk_doc docs; c_langs := langs |} in
+  let tl := tbl_lower folds in let ob := tbl_orbit folds in let re := tbl_re (c_docs c) retbl in
+  (search re tl ob c (count_freq ob c) q, spec_search re tl c q).
+Definition row_eqb (a b : nat * list N) : bool := Nat.eqb (fst a) (fst b) && runes_eqb (snd a) (snd b).
+(** 0 = model mechanism, model specification and implementation agree; 1 = the mechanism differs from the
+    implementation (model not faithful); 2 = mechanism = implementation but the specification differs (the property
+    fails on this input, reproduced by the model) *)
+Definition c01_verdict (cs : c01case) : N :=
+  let '(_, docs, _, _, _, _, observed) := cs in
+  let '(mech, spec) := c01_model cs in
+  let row k := let d := nth k (map mk_doc docs) dflt_doc in (d_repo d, d_name d) in
+  if negb (list_eqb row_eqb (map row mech) observed) then 1%N
+  else if negb (list_eqb row_eqb (map row spec) observed) then 2%N else 0%N.
+Definition c01_mismatches (cs : list c01case) : list N := bad_indexes (fun x => N.eqb (c01_verdict x) 0) cs.
+Definition c01_mech_mismatches (cs : list c01case) : list N := bad_indexes (fun x => negb (N.eqb (c01_verdict x) 1)) cs.
